@@ -1735,6 +1735,15 @@ class Interp:
                 raise Unsupported("filtered comprehension over a symbolic-length collection")
             return self.eval(n.elt, cfr)
 
+        # `c for _ in S`: the element does not mention the loop variable -> the constant repeated len(S) times
+        tnames = {x.id for x in ast.walk(g.target) if isinstance(x, ast.Name)}
+        enames = {x.id for x in ast.walk(n.elt) if isinstance(x, ast.Name)}
+        if not g.ifs and not (tnames & enames) and not any(isinstance(x, (ast.Call, ast.Yield, ast.Await)) for x in ast.walk(n.elt)):
+            v = self.eval(n.elt, fr)
+            if isinstance(v, (int, SInt)) and not isinstance(v, bool):
+                from .symseq import RepGrid
+
+                return RepGrid(v, sc.it.length())
         return MapSeq.make(self, sc.it, elem, is_list=isinstance(n, ast.ListComp))
 
     # calls ------------------------------------------------------------------
